@@ -109,6 +109,7 @@ func (x *c16) xmlNS() {
 	prefixArg, uriArg := -1, -1
 	type site struct {
 		key, pos, msg string
+		p, u          int
 	}
 	var sites []site
 	for fn := range x.p.AllFns {
@@ -153,18 +154,40 @@ func (x *c16) xmlNS() {
 					u = i
 				}
 			}
-			switch {
-			case p < 0 || u < 0:
+			s.p, s.u = p, u
+			if p < 0 || u < 0 {
 				s.msg = fmt.Sprintf("arguments are (%s, %s); expected the attribute's local name (or \"\") and its value", role[0], role[1])
-			case prefixArg >= 0 && (p != prefixArg || u != uriArg):
-				s.msg = "prefix and URI are passed in the opposite order of the other declarations"
-			default:
-				prefixArg, uriArg = p, u
 			}
 			sites = append(sites, s)
 		}
 	}
 	sort.Slice(sites, func(i, j int) bool { return sites[i].key < sites[j].key })
+	// the order most declarations use is the order push is written for (independent of visiting order)
+	votes := map[[2]int]int{}
+	for _, s := range sites {
+		if s.msg == "" {
+			votes[[2]int{s.p, s.u}]++
+		}
+	}
+	best, tie := 0, false
+	for pu, n := range votes {
+		switch {
+		case n > best:
+			best, tie = n, false
+			prefixArg, uriArg = pu[0], pu[1]
+		case n == best:
+			tie = true
+		}
+	}
+	if tie {
+		prefixArg, uriArg = -1, -1
+	}
+	for i := range sites {
+		s := &sites[i]
+		if s.msg == "" && (tie || s.p != prefixArg || s.u != uriArg) {
+			s.msg = "prefix and URI are passed in the opposite order of the other declarations"
+		}
+	}
 	for _, s := range sites {
 		ru.Check(s.msg == "", s.key, s.pos, "(prefix, uri) of the declaration", "xmlns declaration: "+s.msg)
 	}
